@@ -101,6 +101,8 @@ def run(ctx):
               ["A.qml", "sub/B.qml"], ["MyDialog.qml", "sub/deep/C.qml"], ["sub/B.qml", "A.qml", "./MyDialog.qml"], ["Mixed_Case9.qml"],
               # stems with dots: the type (and output) name is the file name without its LAST extension
               ["Settings.v2.qml"], ["MyDialog.qml", "MyDialog.ui.qml"], ["sub/Pane.left.qml", "sub/B.qml"],
+              # directories spelled with capitals: only the FILE name is lowercased, the directory part is kept as written
+              ["Forms/MainDialog.qml"], ["Forms/Sub/X.qml", "A.qml"], ["Forms/MainDialog.qml", "forms/MainDialog.qml"], ["ABS:Forms/MainDialog.qml"],
               # one escaping or absolute source among confined ones: the whole run is refused
               ["A.qml", "../outside/D.qml"], ["../outside/D.qml", "sub/B.qml"], ["sub/B.qml", "ABS:A.qml"], ["ABS:MyDialog.qml", "A.qml", "sub/B.qml"]]
     outs = [None, "out", "out/nested/x", "./out", "ABSOUT", "../outside/o2"]
@@ -114,10 +116,13 @@ def run(ctx):
                         continue
                     k += 1
                     base = os.path.join(work, "k%d" % k)
-                    cwd = os.path.join(base, "proj")
+                    cwd = os.path.join(base, "Proj")
                     os.makedirs(os.path.join(cwd, "sub", "deep"))
+                    os.makedirs(os.path.join(cwd, "Forms", "Sub"))
+                    os.makedirs(os.path.join(cwd, "forms"))
                     os.makedirs(os.path.join(base, "outside"))
-                    for rel in ("A.qml", "sub/B.qml", "sub/deep/C.qml", "MyDialog.qml", "Mixed_Case9.qml", "../outside/D.qml", "Settings.v2.qml", "MyDialog.ui.qml", "sub/Pane.left.qml"):
+                    for rel in ("A.qml", "sub/B.qml", "sub/deep/C.qml", "MyDialog.qml", "Mixed_Case9.qml", "../outside/D.qml", "Settings.v2.qml", "MyDialog.ui.qml", "sub/Pane.left.qml",
+                                "Forms/MainDialog.qml", "Forms/Sub/X.qml", "forms/MainDialog.qml"):
                         open(os.path.join(cwd, rel), "w").write(DOC_DYN if dyn else DOC_STATIC % "s")
                     srcs = [s.replace("ABS:", cwd + "/") for s in shape]
                     o = out.replace("ABSOUT", os.path.join(base, "absout")) if out else None
@@ -135,7 +140,7 @@ def run(ctx):
                     changed = [p for p in before if after.get(p) != before[p]]
                     ctx.count(("k", tuple(shape), out, lower, dyn), o is not None)
                     ctx.dist("accepted" if rc == 0 else "refused-or-failed")
-                    rep = {"cwd_layout": "proj/{A.qml,MyDialog.qml,Mixed_Case9.qml,sub/B.qml,sub/deep/C.qml}, outside/D.qml", "cli_args": ["generate-ui", "--foreign-types", "contrib/metatypes"] + args}
+                    rep = {"cwd_layout": "Proj/{A.qml,MyDialog.qml,Mixed_Case9.qml,sub/B.qml,sub/deep/C.qml,Forms/MainDialog.qml,Forms/Sub/X.qml,forms/MainDialog.qml}, outside/D.qml", "cli_args": ["generate-ui", "--foreign-types", "contrib/metatypes"] + args}
                     if changed:
                         ctx.violation("an existing file was modified or removed: %r" % changed, dict(rep, impl_output=err[-500:]))
                         continue
@@ -157,6 +162,13 @@ def run(ctx):
                             ctx.violation("the run reports success but the files it created are %r; the sources call for %r" % (have, want),
                                           dict(rep, impl_output=created, oracle_output=want, theorem_or_correspondence="S: one output pair per source, named after it / C15_outputs_confined"))
                             continue
+                        # ... next to its source, or under the same relative path inside the output directory (directory part exactly as written)
+                        wantd = sorted(set(os.path.normpath(os.path.join(cwd, o, os.path.dirname(sp)) if o else os.path.join(cwd, os.path.dirname(sp))) for sp in srcs))
+                        haved = sorted(set(os.path.dirname(c) for c in created))
+                        if haved != wantd:
+                            ctx.violation("the outputs were created in %r; the sources call for %r" % (haved, wantd),
+                                          dict(rep, impl_output=created, oracle_output=wantd, theorem_or_correspondence="S: outputs next to the source / same relative path under -O"))
+                            continue
                     exp = "(%s, %s)" % ("true" if rc == 0 else "false", C.coq_list(["[" + "; ".join('"%s"' % x for x in c.split("/") if x) + "]" for c in created_in_order(created, srcs, lower)]))
                     case = "(%s, %s, %s, %s, %s)" % (comps(cwd), "true" if lower else "false", "true" if dyn else "false", "None" if not o else "(Some %s)" % comps(o),
                                                      C.coq_list(["(%s, \"%s\")" % (comps(s), os.path.basename(s)[:-4]) for s in srcs]))
@@ -169,7 +181,7 @@ def run(ctx):
     s_kill(ctx, cli, work, rng)
     shutil.rmtree(work, ignore_errors=True)
     ctx.coverage["compared_with_model"] = len(terms)
-    ctx.coverage["rule"] = ("19 source-argument shapes (plain, ./, nested, interior ., parent-escaping, outside, absolute, several sources, mixed case, dotted stems, escaping sources among confined ones) x 6 output directories "
+    ctx.coverage["rule"] = ("23 source-argument shapes (plain, ./, nested, directories spelled with capitals, interior ., parent-escaping, outside, absolute, several sources, mixed case, dotted stems, escaping sources among confined ones) x 6 output directories "
                             "(none, relative, nested, ./, absolute, parent-escaping) x lowercase on/off x dynamic binding on/off (half sampled in the quick tier); re-run, edit "
                             "sequences, strace of write-type system calls, kill at system-call index N")
     if not ctx.model_ok:
